@@ -64,7 +64,8 @@ theorem needs_imply_checks (a : Args) (hwf : a.data.WF) (hn : Needs a) : fitChec
   · intro i hi; exact ⟨penIdx_lt n12 hi, by omega, n13 i hi⟩
 
 /-- **needs_imply_safe.**  Under `Needs`, every array access and every stack-array declaration of the modelled
-    routines (`fit` set-up, `add_penalty_term`/`calc_penalty`/`divided_diffs`, `bsplinebasis`/`bspline`) is in
+    routines (`fit` set-up, `add_penalty_term`/`calc_penalty`/`divided_diffs`, `bsplinebasis`/`bspline`, the monotone
+    tail of `glamfit_complex`) is in
     bounds — for all dimensions, orders, knot counts and grid sizes. -/
 theorem needs_imply_safe (a : Args) (hwf : a.data.WF) (hsz : SizesFit a) (hn : Needs a) :
     fitBody repaired a = .ok := by
@@ -74,7 +75,7 @@ theorem needs_imply_safe (a : Args) (hwf : a.data.WF) (hsz : SizesFit a) (hn : N
     fun i hi => nsplinesOf_eq (by have := n10 i hi; omega)
   simp only [fitBody, repaired, seqAll_cons_ok, seqAll_nil, forN_ok_iff, rd_ok_iff, when_ok_iff, and_true, hw1]
   refine ⟨fun j hj => by omega, fun i hi => by omega, fun i hi => by omega, by omega,
-    fun i hi => ⟨by omega, by omega, by omega⟩, by omega, by omega, fun i hi => by omega, ?_, ?_, ?_⟩
+    fun i hi => ⟨by omega, by omega, by omega⟩, by omega, by omega, fun i hi => by omega, ?_, ?_, ?_, ?_⟩
   · intro i hi
     have := n10 i hi
     rw [hns i hi]; exact ⟨by omega, by omega⟩
@@ -86,6 +87,9 @@ theorem needs_imply_safe (a : Args) (hwf : a.data.WF) (hsz : SizesFit a) (hn : N
   · intro i hi
     have := n10 i hi
     exact ⟨by rw [hwf.ranges_len]; exact hi, bsplineBasis_ok (by omega) (n6 i hi)⟩
+  · intro hm
+    have hne : a.monodim ≠ noMonodim := by simpa using hm
+    exact monoTail_ok _ _ (by simp only [List.length_map, List.length_range]; omega)
 
 /-- The sanity block itself never reads out of bounds (this is where the `rows == 0` check is needed). -/
 theorem checks_never_fault (a : Args) (hwf : a.data.WF) : (fitChecks repaired a).isFault = false := by
